@@ -1276,3 +1276,294 @@ def userdict_direct_writers(v):
     v.check('direct-writers-of-data-in-the-stdlib-are-the-catalogued-ones', sorted(found) == sorted(DIRECT_WRITERS))
     v.check('handlers-overrides-the-two-item-writers-and-copy', all(n in real.__dict__ for n in ('__setitem__', '__delitem__', 'copy')))
     v.cover('scanned')
+
+
+# ---------------------------------------------------------------------------
+# resolve(media_type, default, raise_not_found): a function of its arguments and the *current* self.data
+
+
+@stubclass
+class BestMatchContract:
+    """mediatypes.best_match(candidates, header) as proved above: '' or one of the candidates, or InvalidMediaType (a ValueError)."""
+
+    def __init__(self, v, fixed=None):
+        self.v = v
+        self.calls = []
+        self.result = None
+        self.raised = None
+        self.fixed = fixed
+
+    def __call__(self, media_types, header):
+        v = self.v
+        cands = list(media_types)
+        self.calls.append((media_types, header))
+        if self.fixed is not None:
+            self.result = self.fixed
+            return self.result
+        k = v.choose(len(cands) + 2, 'best_match-result')
+        if k < len(cands):
+            self.result = cands[k]
+        elif k == len(cands):
+            self.result = ''
+        else:
+            self.raised = mk_exc(v.real('falcon.errors:InvalidMediaType'), 'The media type value must contain type/subtype.')
+            throw(v, self.raised)
+        return self.result
+
+
+def run_fn(v, fn, *args, **kwargs):
+    """Run a contract-side callable that executes subject code (GhostLru.run / a resolver) -> Outcome."""
+    try:
+        return Outcome(value=fn(*args, **kwargs))
+    except PyRaise as e:
+        return Outcome(exc=e.exc)
+    except Exception as e:  # noqa: BLE001
+        if not v.concrete:
+            raise
+        return Outcome(exc=ExcVal(type(e), e.args, real=e))
+
+
+def _make_resolver(v, g, h):
+    if v.concrete:
+        with patched(v, 'falcon.util.misc', '_lru_cache_for_simple_logic', concrete_lru(g)):
+            return v.call(h, target=HANDLERS + '._create_resolver')
+    return v.call(h, target=HANDLERS + '._create_resolver')
+
+
+@harness(PROP, HANDLERS + '._create_resolver', name='resolve', setup=_handlers_setup)
+def handlers_resolve(v):
+    H415 = v.real('falcon.errors:HTTPUnsupportedMediaType')
+    g = ghost_of(v)
+    h, lru0, e0 = mk_handlers(v, g, [])
+    made = _make_resolver(v, g, h)
+    ok = made.exc is None and isinstance(made.value, GhostLru)
+    v.check('create-resolver-returns-an-lru-cached-function-of-this-object', ok and made.value.owner is h and made.value is not lru0)
+    if not ok:
+        return
+    resolver = made.value
+    # the mapping is filled only now: the resolver must read the mapping as it is when asked, not as it was when built
+    n = v.choose(3, 'entries')
+    entries = [(KEYS[i], Handler('handler%d' % i, sync=bool(v.choose(2, 'sync-fast-path%d' % i)))) for i in range(n)]
+    data = v.get(h, 'data')
+    for k, hd in entries:
+        data[k] = hd
+    e1 = g.epoch(h)
+    keys = [k for k, _ in entries]
+
+    mt_kind = v.choose(2, 'media-type-given')
+    media_type = v.str('media_type') if mt_kind else None
+    default = v.str('default')
+    rnf = v.choose(3, 'raise_not_found')  # omitted (True), True, False
+    args = (media_type, default) + (() if rnf == 0 else (rnf == 1,))
+    bm = BestMatchContract(v)
+    with patched(v, MT_MOD, 'best_match', bm):
+        out = run_fn(v, resolver.run, args, {})
+
+    # ---- specification -----------------------------------------------------------------------
+    # "falling back to the default type for a missing or */* type"
+    missing = True if media_type is None else Or(media_type == '', media_type == '*/*')
+    if missing:
+        eff = default
+        v.cover('fell-back-to-default')
+    else:
+        eff = media_type
+    exact = [eff == k for k in keys]
+    hit = Or(*exact)
+    v.check('matcher-consulted-exactly-when-there-is-no-exact-key', Iff(hit, len(bm.calls) == 0) and len(bm.calls) <= 1)
+    if hit:
+        v.check('exact-key-designates-the-handler', out.exc is None and And(*[Implies(e, out.value[0] is hd) for e, (k, hd) in zip(exact, entries)]))
+        chosen = out.value[0] if out.exc is None else None
+        v.cover('exact')
+    else:
+        if len(bm.calls) != 1:
+            return
+        cands, header = bm.calls[0]
+        v.check('matcher-sees-the-current-keys-and-the-effective-type', isinstance(cands, tuple) and list(cands) == keys and And(header == eff))
+        if bm.raised is None and bm.result:
+            want = dict(entries)[bm.result]
+            v.check('matched-key-designates-the-handler', out.exc is None and out.value[0] is want)
+            chosen = want
+            v.cover('matched')
+        else:
+            chosen = None
+            if rnf in (0, 1):
+                v.check('no-designated-handler-is-a-415', out.exc is not None and out.exc.isa(H415))
+                v.cover('415')
+            else:
+                v.check('no-designated-handler-yields-three-nones', out.exc is None and out.value == (None, None, None))
+                v.cover('nothing')
+    if chosen is not None and out.exc is None:
+        v.check('returns-handler-with-its-sync-fast-paths',
+                isinstance(out.value, tuple) and len(out.value) == 3 and out.value[1] is getattr(chosen, '_serialize_sync', None)
+                and out.value[2] is getattr(chosen, '_deserialize_sync', None))
+    # purity
+    v.check('resolving-does-not-write-the-mapping', g.epoch(h) == e1 and same_items(v.get(h, 'data'), dict(entries)))
+    v.check('resolving-does-not-touch-the-resolver-or-clear-its-cache', v.get(h, '_resolve') is lru0 and not g.clears)
+
+
+@harness(PROP, H_MOD + ':_best_match', setup=_handlers_setup)
+def handlers_best_match(v):
+    media_type = v.str('media_type')
+    keys = tuple(KEYS[: v.choose(3, 'entries')])
+    bm = BestMatchContract(v)
+    with patched(v, MT_MOD, 'best_match', bm):
+        out = v.call(media_type, keys)
+    v.check('no-exception', out.exc is None)
+    v.check('asks-best-match-once-with-the-keys-as-candidates-and-the-type-as-header',
+            len(bm.calls) == 1 and bm.calls[0][0] is keys and And(bm.calls[0][1] == media_type))
+    if out.exc is not None:
+        return
+    if bm.raised is not None:
+        v.check('unparsable-type-designates-nothing', out.value is None)
+        v.cover('unparsable')
+    else:
+        v.check('returns-what-best-match-chose', out.value is bm.result)
+        v.cover('chosen')
+
+
+# ---------------------------------------------------------------------------
+# a history, end to end on the real code with a memoising cache: never a stale handler
+
+HISTORY_OPS = ['replace', 'delete', 'pop', 'clear', 'update', 'popitem-all', 'setdefault-after-delete', 'customise-the-copy']
+
+
+@harness(PROP, HANDLERS + '.__init__', name='history_never_stale', setup=_handlers_setup)
+def history_never_stale(v):
+    g = ghost_of(v)
+    A, B, N = Handler('A'), Handler('B'), Handler('N')
+    K0, K1 = KEYS[0], KEYS[1]
+    made = _construct(v, g, {K0: A, K1: B})
+    if made.exc is not None:
+        v.check('no-exception', False)
+        return
+    h = made.value
+    bm = BestMatchContract(v, fixed='')  # nothing but an exact key matches in this history
+    ask = (K0, 'application/octet-stream', False)
+
+    def resolve(o):
+        r = v.get(o, '_resolve')
+        return run_fn(v, r, *ask)
+
+    with patched(v, MT_MOD, 'best_match', bm):
+        r1 = resolve(h)
+        r1b = resolve(h)  # answered from the cache
+        v.check('first-resolution-designates-the-initial-handler', r1.exc is None and r1.value[0] is A and r1b.exc is None and r1b.value[0] is A)
+        lru = v.get(h, '_resolve')
+        v.check('second-identical-resolution-is-a-cache-hit', isinstance(lru, GhostLru) and lru.hits == 1)
+        op = HISTORY_OPS[v.choose(len(HISTORY_OPS), 'operation')]
+        target = h
+        if op == 'replace':
+            o = method(v, h, '__setitem__', K0, N)
+        elif op == 'delete':
+            o = method(v, h, '__delitem__', K0)
+        elif op == 'pop':
+            o = method(v, h, 'pop', K0)
+        elif op == 'clear':
+            o = method(v, h, 'clear')
+        elif op == 'update':
+            o = method(v, h, 'update', {K0: N})
+        elif op == 'popitem-all':
+            o = method(v, h, 'popitem')
+            o = method(v, h, 'popitem') if o.exc is None else o
+        elif op == 'setdefault-after-delete':
+            o = method(v, h, '__delitem__', K0)
+            r_mid = resolve(h)
+            v.check('after-delete-nothing-is-designated', r_mid.exc is None and r_mid.value[0] is None)
+            o = method(v, h, 'setdefault', K0, N) if o.exc is None else o
+        else:
+            o = _copy(v, g, h)
+            if o.exc is None:
+                target = o.value
+                o = method(v, target, '__setitem__', K0, N)
+        v.check('no-exception', o.exc is None)
+        if o.exc is not None:
+            return
+        r2 = resolve(target)
+        cur = v.get(target, 'data').get(K0)
+        # "returns the handler that the current mapping designates ... never a stale handler"
+        v.check('never-a-stale-handler', r2.exc is None and r2.value[0] is cur)
+        if target is not h:
+            r3 = resolve(h)
+            v.check('customising-the-copy-does-not-affect-the-original', r3.exc is None and r3.value[0] is A and same_items(v.get(h, 'data'), {K0: A, K1: B}))
+        check_coherent(v, g, target)
+    v.cover('history')
+
+
+# ---------------------------------------------------------------------------
+# Request.client_accepts / client_prefers
+
+
+def _accept_env(v):
+    k = v.choose(3, 'accept-header')  # missing, empty, present
+    if k == 0:
+        return {}, None
+    if k == 1:
+        return {'HTTP_ACCEPT': ''}, ''
+    a = v.str('accept')
+    v.assume(a != '')
+    return {'HTTP_ACCEPT': a}, a
+
+
+@harness(PROP, REQ + '.client_accepts', inline=[REQ + '.accept'], setup=_mediatypes_setup)
+def client_accepts(v):
+    InvalidMediaType = v.real('falcon.errors:InvalidMediaType')
+    InvalidMediaRange = v.real('falcon.errors:InvalidMediaRange')
+    env, accept = _accept_env(v)
+    req = v.obj(REQ, env=env)
+    media_type = v.str('media_type')
+    k = v.choose(3, 'quality-outcome')
+    q = mkq(v, 'q') if k == 0 else None
+    err = None if k == 0 else (mk_exc(InvalidMediaType, 'bad type') if k == 1 else mk_exc(InvalidMediaRange, 'bad range'))
+
+    def quality(mt, hdr):
+        if err is not None:
+            throw(v, err)
+        return q
+
+    qstub = Opaque(v, quality)
+    with patched(v, MT_MOD, 'quality', qstub):
+        out = v.call(req, media_type)
+    v.check('never-raises', out.exc is None)
+    if out.exc is not None:
+        return
+    got = out.value
+    if accept is None or accept == '':
+        # "Per RFC, a missing accept header is equivalent to '*/*'"
+        v.check('missing-or-empty-accept-header-accepts-everything', got is True)
+        v.cover('no-accept-header')
+        return
+    trivially = Or(accept == '*/*', accept == media_type)
+    if trivially:
+        v.check('star-star-or-the-identical-value-accepts', got is True)
+        v.cover('fast-path')
+        return
+    v.check('asks-quality-of-the-type-against-the-header', len(qstub.calls) == 1 and And(qstub.calls[0][0] == media_type, qstub.calls[0][1] == accept))
+    if err is not None:
+        v.check('malformed-header-or-type-means-not-accepted', got is False)
+        v.cover('malformed')
+    else:
+        v.check('accepted-iff-quality-is-not-zero', Iff(got, q > 0.0))
+        v.cover('by-quality')
+
+
+@harness(PROP, REQ + '.client_prefers', inline=[REQ + '.accept'], setup=_mediatypes_setup)
+def client_prefers(v):
+    InvalidMediaType = v.real('falcon.errors:InvalidMediaType')
+    env, accept = _accept_env(v)
+    req = v.obj(REQ, env=env)
+    cands = list(CANDS[: 1 + v.choose(3, 'candidates')])
+    bm = BestMatchContract(v)
+    with patched(v, MT_MOD, 'best_match', bm):
+        out = v.call(req, cands)
+    v.check('never-raises', out.exc is None)
+    if out.exc is not None:
+        return
+    eff = '*/*' if (accept is None or accept == '') else accept
+    v.check('asks-best-match-of-the-candidates-against-the-accept-header-or-star-star',
+            len(bm.calls) == 1 and bm.calls[0][0] is cands and And(bm.calls[0][1] == eff))
+    if bm.raised is not None or not bm.result:
+        v.check('nothing-acceptable-or-malformed-header-yields-none', out.value is None)
+        v.cover('none')
+    else:
+        v.check('returns-the-best-match', out.value is bm.result)
+        v.cover('preferred')
